@@ -55,9 +55,57 @@ fn grammars(tier: Tier, cheap: bool) -> Vec<Gram> {
         t3.retain(|g| g.terms.len() == 3 && g.nts.len() == 3);
         v.extend(t3);
     }
+    v.extend(self_embedding_family(tier));
     // keep grammars the reference calls well-formed for LL, or EBNF (decided by parol's check)
     v.retain(|g| !g.is_bnf() || Bnf::of(g).well_formed_ll());
     v
+}
+
+/// Right-hand sides longer than the enumerated spaces allow: `S: A; A: alpha A beta | gamma; B: 'c';` with
+/// alpha = 1..3 terminals, beta = 0..2 symbols (terminals or B), gamma = one terminal or empty
+/// (a non-terminal embedded in the middle of its own production behind several terminals)
+fn self_embedding_family(tier: Tier) -> Vec<Gram> {
+    fn seqs(alpha: &[Fac], min: usize, max: usize) -> Vec<Seq> {
+        let mut res: Vec<Seq> = vec![];
+        let mut layer: Vec<Seq> = vec![vec![]];
+        if min == 0 {
+            res.push(vec![]);
+        }
+        for l in 1..=max {
+            let mut nx = vec![];
+            for w in &layer {
+                for a in alpha {
+                    let mut z = w.clone();
+                    z.push(a.clone());
+                    nx.push(z);
+                }
+            }
+            if l >= min {
+                res.extend(nx.iter().cloned());
+            }
+            layer = nx;
+        }
+        res
+    }
+    let mut out = vec![];
+    let alphas = seqs(&[Fac::T(0), Fac::T(1)], 1, tier.pick(2, 3));
+    let betas = seqs(&[Fac::T(0), Fac::T(2), Fac::N(2)], 0, 2);
+    for a in &alphas {
+        for b in &betas {
+            for gamma in [vec![Fac::T(3)], vec![]] {
+                let mut rhs = a.clone();
+                rhs.push(Fac::N(1));
+                rhs.extend(b.iter().cloned());
+                let uses_b = b.contains(&Fac::N(2));
+                let mut prods = vec![(0u8, vec![vec![Fac::N(1)]]), (1u8, vec![rhs, gamma.clone()])];
+                if uses_b {
+                    prods.push((2u8, vec![vec![Fac::T(2)]]));
+                }
+                out.push(Gram::simple(if uses_b { 3 } else { 2 }, 4, prods, false));
+            }
+        }
+    }
+    out
 }
 
 /// Prepare the grammar config (transformed or raw). None = rejected by parol's check stage.
@@ -812,7 +860,7 @@ pub fn run(id: &str, tier: Tier, replay: Option<&str>) -> i32 {
                 }
             });
             level = "exploration";
-            rule = format!("the left-recursion-free, productive, reachable grammars among: {} (as left-factored by the pipeline and, raw, fed directly to the public analysis functions) plus EBNF bodies; lookahead limits K in {:?}. Oracle: strong-LL(k) by definition (pairwise disjoint FIRST_k(alpha) (+)k FOLLOW_k(A)), minimal k by increasing k. Non-trivial = grammars needing k >= 2 somewhere or rejected at K.", super::ll::spaces_text(Tier::Thorough), ks);
+            rule = format!("the left-recursion-free, productive, reachable grammars among: {} (as left-factored by the pipeline and, raw, fed directly to the public analysis functions) plus EBNF bodies plus the self-embedding family `S: A; A: alpha A beta | gamma` with alpha of 1-3 terminals and beta of 0-2 symbols; lookahead limits K in {:?}. Oracle: strong-LL(k) by definition (pairwise disjoint FIRST_k(alpha) (+)k FOLLOW_k(A)), minimal k by increasing k. Non-trivial = grammars needing k >= 2 somewhere or rejected at K.", super::ll::spaces_text(Tier::Thorough), ks);
             extra = json!({});
         }
         "C06" => {
